@@ -4,6 +4,8 @@ ties Nsq.Tie.GuidLoop (body of Topic.GenerateID, writers/users of the id factory
 import os
 import re
 
+from framework import ROOT
+
 TIE = ["Nsq.Tie.GuidLoop"]
 PROPS = ["Nsq.Props.C12Clock"]
 SPECS = ["e1_guidloop"]
@@ -119,6 +121,25 @@ def run(ctx, corr_broken, node=None):
         m = re.search(r"msgs=(\d+)", okl[0])
         if m:
             ctx.evaluations += int(m.group(1))
+    # 4. open finding: a re-created topic starts a new factory (replayed on every run)
+    run_recreate(ctx, binp, base)
+
+
+def run_recreate(ctx, binp, base):
+    """Replay of the open finding topic-recreate-same-pseudo-ms (a KNOWN-FINDING line only if it reproduces)."""
+    rc, out = ctx.run_cmd([binp, "-test.run", "^TestVerifGuidRecreate$", "-test.count=1", "-test.timeout=120s"],
+                          timeout=150, env=dict(base, VERIF_N=ctx.budget(300, 2000)))
+    m = re.search(r"^RECREATE cycles=(\d+) same_id=(\d+) lower_id=(\d+) node=\d+ ?(.*)$", out, re.M)
+    if not m:
+        ctx.log("recreate replay did not complete (rc=%s):\n%s" % (rc, out[-1200:]))
+        return
+    ctx.corr["topic_recreate_replay"] = m.group(0)[:300]
+    ctx.evaluations += int(m.group(1))
+    if int(m.group(2)) > 0 or int(m.group(3)) > 0:
+        ctx.violation("topic-recreate-same-pseudo-ms",
+                      "%s of %s delete + re-create cycles of one topic name handed out the SAME id again: %s"
+                      % (m.group(2), m.group(1), m.group(4)),
+                      open(os.path.join(ROOT, "corpus", "C12", "known", "topic_recreate_same_ms.txt")).read() + m.group(0) + "\n")
 
 
 def entrance_of(line):
